@@ -1,7 +1,9 @@
 // H lines: encode HISTORIES of Fragment / MediaSegment / File through the TWO encoders (coq/c03/C03EncHistModel.v: hfrag_w / hfrag_sw,
 // hseg_w / hseg_sw, hfile_w / hfile_sw as state transformers).  A history is a string over
-//   e  Encode(io.Writer)        w  EncodeSW(SliceWriter, large enough)      s  Size()       i  Info()
-//   o  toggle EncOptimize (OptimizeTrun on / off)            +  an ADDITION: AddFullSample to the last fragment's first track
+//
+//	e  Encode(io.Writer)        w  EncodeSW(SliceWriter, large enough)      s  Size()       i  Info()
+//	o  toggle EncOptimize (OptimizeTrun on / off)            +  an ADDITION: AddFullSample to the last fragment's first track
+//
 // After every operation the outcome (Size value; length + md5 + top-level box lengths of the bytes; error; panic) and the mutated
 // fields (trun flags / data offset / first-sample flags, tfhd flags / defaults, mdat LargeSize, EncOptimize) are recorded.  After
 // an addition or a toggle the WHOLE structure is serialised again: the model continues from the re-read state (HApply), so a stale
@@ -18,6 +20,7 @@ import (
 	"encoding/hex"
 	"fmt"
 	"strings"
+	"verifharness/c01/bx"
 
 	"github.com/Eyevinn/mp4ff/bits"
 	"github.com/Eyevinn/mp4ff/mp4"
@@ -27,7 +30,6 @@ import (
 const maxTokBytes = 200000
 
 type unsupported struct{ why string }
-
 
 // ------------------------------------------------------------------ serialisation of the structure
 type tw struct {
@@ -696,7 +698,6 @@ func genSegment(r *hx.Rng, wild bool) *mp4.MediaSegment {
 	return seg
 }
 
-
 // ---------------------------------------------------------------- histories through the two encoders
 type hagg struct {
 	kind   string
@@ -706,7 +707,7 @@ type hagg struct {
 	info   func(*bytes.Buffer) error
 	digest func(*strings.Builder)
 	ser    func(t *tw)
-	toggle func()        // EncOptimize on <-> off
+	toggle func() // EncOptimize on <-> off
 	frags  func() []*mp4.Fragment
 }
 
@@ -815,7 +816,7 @@ func (a hagg) runGroups(r *hx.Rng, hist string) []string {
 					o = bytesObs(buf.Bytes())
 				}
 			case 'w':
-				sw := bits.NewFixedSliceWriter(nb + 4096)
+				sw := bx.DirtyWriter(nb + 4096)
 				if err := a.encsw(sw); err != nil {
 					o = "E"
 				} else {
@@ -947,7 +948,7 @@ func (a hagg) runPlain(r *hx.Rng, hist string) []string {
 					o = bytesObs(buf.Bytes())
 				}
 			case 'w':
-				sw := bits.NewFixedSliceWriter(1 << 20)
+				sw := bx.DirtyWriter(1 << 20)
 				if err := a.encsw(sw); err != nil {
 					o = "E"
 				} else {
